@@ -162,4 +162,54 @@ def pollConnsOnce : List ConnRes → List Id → List Id → Option Ev × List C
   | .err id :: rest, ds, po =>
     if id ∈ ds then (some (.dialFailure id), rest, eraseId ds id, po) else (none, rest, ds, po)
 
+/-! ## `TcpTransport::open`: the future it pushes into `pending_raw_connections` (round `gtcp`)
+
+`open(id, addresses)` builds ONE future: the addresses are attempted through `buffer_unordered(max_parallel_dials)`
+(here `max_parallel_dials = 1`: one after the other), a successful attempt resolves it to `Connected`, the exhausted
+list to `Failed`, and so does the overall deadline `DIAL_DEADLINE_MULTIPLIER * connection_open_timeout`
+(`_ = &mut deadline => return RawConnectionResult::Failed {..}`) — the deadline interrupts an attempt in flight. The
+future is wrapped in `futures::future::abortable(..).unwrap_or_else(|_| Canceled)`: `Canceled` comes out only when the
+manager called `Transport::cancel(id)` while it was running. Time is logical: a stalled attempt (the remote accepts
+the TCP connection and never speaks) lasts `timeout`, a refused or answered one lasts no time. -/
+
+/-- What the node behind a dialed address does. -/
+inductive AddrKind where
+  | stall    -- accepts the TCP connection, never speaks: the attempt runs into `connection_open_timeout`
+  | refuse   -- connection refused
+  | answer   -- negotiates
+  deriving DecidableEq, Repr
+
+/-- The `loop { select! { futures.next(), deadline } }` of `open` with attempts run one at a time: the result and the
+time at which it is ready. `el`: time elapsed since the future started. -/
+def openRun (id : Id) (timeout deadline : Nat) : List AddrKind → Nat → RawRes × Nat
+  | [], el => (.failed id, el)                                  -- `None =>` every address failed
+  | .refuse :: rest, el => openRun id timeout deadline rest el  -- `Some(Err(error)) => errors.push(error)`
+  | .answer :: _, el => (.connected id, el)                     -- `Some(Ok(negotiated)) =>`
+  | .stall :: rest, el =>
+    if deadline ≤ el + timeout then (.failed id, deadline)      -- `_ = &mut deadline =>` "overall dial timeout exceeded"
+    else openRun id timeout deadline rest (el + timeout)
+
+/-- The future `open` queues: `abortable(future).unwrap_or_else(|_| Canceled { connection_id })`. `cancelAt`: when the
+manager calls `Transport::cancel(id)` (if it does); an abort after the result was handed out changes nothing. -/
+def openFuture (id : Id) (timeout mult : Nat) (addrs : List AddrKind) (cancelAt : Option Nat) : RawRes :=
+  let r := openRun id timeout (mult * timeout) addrs 0
+  match cancelAt with
+  | some c => if c < r.2 then .canceled id else r.1
+  | none => r.1
+
+/-- The transport right after `open(id, addrs)` once its future is ready: the result queued, the cancel handle
+inserted (aborted iff the manager cancelled in time). -/
+def afterOpen (id : Id) (timeout mult : Nat) (addrs : List AddrKind) (cancelAt : Option Nat) : T :=
+  let r := openFuture id timeout mult addrs cancelAt
+  { raw := [r], handles := [(id, decide (r = .canceled id))] }
+
+/-- The seeded variant (non-vacuity witness): the deadline arm returns `Canceled`. -/
+def openRunSilent (id : Id) (timeout deadline : Nat) : List AddrKind → Nat → RawRes × Nat
+  | [], el => (.failed id, el)
+  | .refuse :: rest, el => openRunSilent id timeout deadline rest el
+  | .answer :: _, el => (.connected id, el)
+  | .stall :: rest, el =>
+    if deadline ≤ el + timeout then (.canceled id, deadline)
+    else openRunSilent id timeout deadline rest (el + timeout)
+
 end Litep2pVerif.Tcp.Poll
